@@ -109,3 +109,76 @@ contract(RX + 'Extractor.fragment2re', props=['C03', 'C13'],
          ensures=[('quantifier-covers-the-run-length-range',
                    'covers(rendered_range(result, True), fragment[1], fragment[2])'),
                   ])
+
+
+# ---------------------------------------------------------------------------
+# C14: PRNGState saves and seeds the global generator iff a seed is given
+# ---------------------------------------------------------------------------
+
+def _random_module(it):
+    log = it.ghost.setdefault('prng', [])
+    m = SObj('random-module', {'__open__': False})
+    token = SObj('prng-state', {'__open__': False})
+    m.methods['getstate'] = Builtin(lambda it2, self: (log.append(('getstate',)), token)[1])
+    m.methods['seed'] = Builtin(lambda it2, self, n=None: log.append(('seed', n)))
+    m.methods['setstate'] = Builtin(lambda it2, self, s: log.append(('setstate', s)))
+    m.methods['sample'] = Builtin(lambda it2, self, pop, k: (log.append(('sample',)), pop)[1])
+    it.ghost['prng_token'] = token
+    return m
+
+
+def _prng_setup(it, senv):
+    it.spec_env['random'] = _random_module(it)
+
+
+@specfn
+def prng_log(it):
+    return [e[0] for e in it.ghost.get('prng', [])]
+
+
+@specfn
+def seeded_with(it, n):
+    ev = [e for e in it.ghost.get('prng', []) if e[0] == 'seed']
+    return len(ev) == 1 and ev[0][1] is n
+
+
+@specfn
+def restored_saved_state(it):
+    ev = [e for e in it.ghost.get('prng', []) if e[0] == 'setstate']
+    return len(ev) == 1 and ev[0][1] is it.ghost.get('prng_token')
+
+
+def _prng_self(it):
+    rc = extract.load_module('tdda/rexpy/rexpy.py').classes['PRNGState']
+    o = SObj('PRNGState', {}, label='self')
+    o.repo_class = rc
+    return o
+
+
+_PENV = dict(ENV, prng_log=prng_log, seeded_with=seeded_with, restored_saved_state=restored_saved_state)
+contract(RX + 'PRNGState.__init__', props=['C14'],
+         params=dict(n=T.union(T.none, T.int)), self_view=_prng_self, on_entry=_prng_setup, spec_env=_PENV,
+         ensures=[('saves-then-seeds-iff-a-seed-is-given',
+                   "prng_log() == (['getstate', 'seed'] if n is not None else [])"),
+                  ('seeds-with-the-given-seed', 'n is None or seeded_with(n)')])
+
+
+def _prng_self_saved(it):
+    o = _prng_self(it)
+    if it.path.choose([True, True]) == 0:
+        o.attrs['saved'] = it.ghost.setdefault('prng_token', SObj('prng-state', {'__open__': False}))
+    return o
+
+
+def _prng_setup_restore(it, senv):
+    tok = it.ghost.get('prng_token')
+    it.spec_env['random'] = _random_module(it)
+    if tok is not None:
+        it.ghost['prng_token'] = tok
+
+
+contract(RX + 'PRNGState.restore', props=['C14'],
+         params={}, self_view=_prng_self_saved, on_entry=_prng_setup_restore, spec_env=_PENV,
+         ensures=[('restores-the-saved-state-iff-one-was-saved',
+                   "(prng_log() == ['setstate'] and restored_saved_state()) if hasattr(self, 'saved') "
+                   "else prng_log() == []")])
